@@ -307,6 +307,45 @@ def _introspect_names(schema):
     return (types, dirs), None
 
 
+def _directive_probes(pm, pred):
+    """
+    -> (queries that must validate, queries that must not) against a schema predicted as ``pred`` from ``pm``:
+    every FIELD directive applied with each argument; input-object typed arguments with one literal per
+    predicted input field; argument names and input field names of ``pm`` that ``pred`` no longer has.
+    """
+    good, bad = [], []
+    src_dirs = {d["name"]: d for d in pm["directives"]}
+    src_by_pos = {}
+    for d in pm["directives"]:
+        for i, a in enumerate(d["args"]):
+            src_by_pos[(d["name"], i)] = a
+    for d in pred["directives"]:
+        if "FIELD" not in d["locations"]:
+            continue
+        pred_arg_names = {a["name"] for a in d["args"]}
+        for a in src_dirs.get(d["name"], {"args": []})["args"]:
+            if a["name"] not in pred_arg_names and M.get_type(pred, M.named(a["type"])) is not None or (
+                a["name"] not in pred_arg_names and M.named(a["type"]) in M.SPECIFIED_SCALARS
+            ):
+                bad.append("{ __typename @%s(%s: null) }" % (d["name"], a["name"]))
+        for a in d["args"]:
+            tn = M.named(a["type"])
+            t = M.get_type(pred, tn)
+            wrapl = (lambda lit: "[%s]" % lit) if "[" in a["type"] else (lambda lit: lit)
+            if t is None or t["kind"] != "input":
+                good.append("{ __typename @%s(%s: %s) }" % (d["name"], a["name"], cs_ops._lit(pred, a["type"])))
+                continue
+            names = set()
+            for f in t["fields"]:
+                names.add(f["name"])
+                good.append("{ __typename @%s(%s: %s) }" % (d["name"], a["name"], wrapl("{%s: %s}" % (f["name"], cs_ops._lit(pred, f["type"])))))
+            st_ = M.get_type(pm, tn)
+            for f in (st_ or {}).get("fields") or ():
+                if f["name"] not in names:
+                    bad.append("{ __typename @%s(%s: %s) }" % (d["name"], a["name"], wrapl("{%s: null}" % f["name"])))
+    return good, bad
+
+
 def check_result(op, pm, pred, result, source_schema, st, src_kind, before=None):
     """oracles on a produced schema; -> list of (class, detail)"""
     from py_gql.lang import parse
@@ -352,6 +391,28 @@ def check_result(op, pm, pred, result, source_schema, st, src_kind, before=None)
                 errs = [e]
             if not errs:
                 out.append(("removed-still-reachable:query:%s" % rk, "%s validates against the result of %s" % (q, op)))
+                break
+    # directive arguments typed by input objects: a query applying the directive with an input object
+    # literal sees exactly the predicted input fields (renamed keys accepted, old keys and hidden fields not)
+    if op["op"] != "fix" and not out:
+        good, bad = _directive_probes(pm, pred)
+        for expect_valid, queries in ((True, good), (False, bad)):
+            for q in queries:
+                if st is not None:
+                    st.n("directive_argument_queries")
+                try:
+                    errs = validate_ast(result, parse(q)).errors
+                except Exception as e:  # noqa
+                    errs = [e]
+                if bool(errs) == expect_valid:
+                    out.append(
+                        (
+                            "directive-argument-query:%s:%s" % ("rejected" if expect_valid else "accepted", family(op)),
+                            "%s %s against the result of %s%s" % (q, "is rejected" if expect_valid else "validates", op, (": %s" % errs[0]) if errs else ""),
+                        )
+                    )
+                    break
+            if out:
                 break
     # dynamic preservation (only when the static comparison found nothing: otherwise a consequence)
     if op["op"] in ("clone", "extend") and not out:
